@@ -96,6 +96,9 @@ def wrap(gen, kind, inner, depth, files):
     if kind == "div":
         f = ":" * (4 + depth)
         return [f] + lines + [f], [(m, i + 1, k, *r) if not (r and r[0]) else (m, i, k, r[0]) for m, i, k, *r in marks]
+    if kind == "div-blank":  # a plain container whose body starts with two blank lines
+        f = ":" * (4 + depth)
+        return [f + "box", "", ""] + lines + [f], [(m, i + 3, k, *r) if not (r and r[0]) else (m, i, k, r[0]) for m, i, k, *r in marks]
     if kind.startswith("inc"):
         # include of a generated file; optionally with :start-line:
         skip = 2 if kind == "inc-start" else 3 if kind == "inc-after" else 5 if kind == "inc-start-after" else 0
@@ -129,7 +132,7 @@ def wrap(gen, kind, inner, depth, files):
 
 DIRS_FULL = [f"dir|{f}|{o}|{ba}|{bb}|{n}" for f in "`:" for o in ("none", "one", "two", "yaml", "yamlblank") for ba in "012" for bb in "01" for n in ("note", "admonition")]
 DIRS_SMALL = [f"dir|{f}|{o}|{ba}|{bb}|note" for f in "`:" for o in ("none", "one", "yaml") for ba, bb in (("0", "0"), ("1", "1"), ("2", "0"))]
-BASIC = ["quote", "bullet", "ordered", "div", "inc", "inc-start", "inc-after", "inc-start-after"]
+BASIC = ["quote", "bullet", "ordered", "div", "div-blank", "inc", "inc-start", "inc-after", "inc-start-after"]
 
 
 def features(ws, leafkind):
@@ -142,7 +145,7 @@ def features(ws, leafkind):
         inner_first = ws[i + 1] if i + 1 < len(ws) else None
         if w.startswith("dir"):
             fence, opts, ba, bb, name = parse_dir(w)
-            if fence == ":" and opts == "none" and ba == "0" and inner_first is not None and (inner_first == "div" or (inner_first.startswith("dir|:"))):
+            if fence == ":" and opts == "none" and ba == "0" and inner_first is not None and (inner_first in ("div", "div-blank") or (inner_first.startswith("dir|:"))):
                 feats.add("colon-directive-body-starts-with-colon-fence")
         if w.startswith("inc"):
             feats.add("include")
